@@ -67,6 +67,12 @@ type PartitionLog struct {
 	// under l.mu by prepareFlush, cleared under l.mu by uploadFlush on commit or
 	// on the upload-failure reset.
 	flushingBatches []RecordBatch
+	// publishSem (one slot) serializes onFlush callbacks; published is the
+	// highest last offset reported so far, so a callback that was overtaken by
+	// a later flush cannot move the published end offset backwards. A channel
+	// rather than a mutex because it is held across the callback's I/O.
+	publishSem chan struct{}
+	published  int64
 }
 
 type segmentRange struct {
@@ -99,7 +105,25 @@ func NewPartitionLog(namespace string, topic string, partition int32, startOffse
 		s3sem:        sem,
 	}
 	pl.flushCond = sync.NewCond(&pl.mu)
+	pl.published = -1
+	pl.publishSem = make(chan struct{}, 1)
 	return pl
+}
+
+// publishFlush reports a flushed artifact through onFlush. Reports are
+// serialized and monotonic: an artifact older than one already reported is
+// dropped (re-reporting the same offset is allowed, it is idempotent).
+func (l *PartitionLog) publishFlush(ctx context.Context, artifact *SegmentArtifact) {
+	if l.onFlush == nil || artifact == nil {
+		return
+	}
+	l.publishSem <- struct{}{}
+	defer func() { <-l.publishSem }()
+	if artifact.LastOffset < l.published {
+		return
+	}
+	l.published = artifact.LastOffset
+	l.onFlush(ctx, artifact)
 }
 
 func (l *PartitionLog) logger() *slog.Logger {
@@ -261,9 +285,7 @@ func (l *PartitionLog) AppendBatch(ctx context.Context, batch RecordBatch) (*App
 		if err := l.uploadFlush(ctx, artifact); err != nil {
 			return nil, err
 		}
-		if l.onFlush != nil {
-			l.onFlush(ctx, artifact)
-		}
+		l.publishFlush(ctx, artifact)
 	}
 	return result, nil
 }
@@ -331,7 +353,7 @@ func (l *PartitionLog) Flush(ctx context.Context) error {
 			l.mu.Unlock()
 		}
 		if target != nil {
-			l.onFlush(ctx, target)
+			l.publishFlush(ctx, target)
 		}
 	}
 	return nil
